@@ -98,6 +98,32 @@ func c13Cases(seed int64, repo string) []c13Case {
 			return out
 		})
 	}
+	// width sweep through the whole pipeline: vector kernels have tails, and a tail that is wrong
+	// (or skipped) only shows for the row lengths / pixel counts of one residue class modulo the
+	// vector width.  Every width 1..40 x two heights (pixel counts of every residue mod 8, 16, 32),
+	// both codecs, encoded AND decoded in this build; the digest covers the file and the pixels.
+	for _, h := range []int{9, 33} {
+		for w := 1; w <= 40; w++ {
+			for _, lossless := range []bool{true, false} {
+				w, h, lossless := w, h, lossless
+				name := fmt.Sprintf("roundtrip lossy %dx%d noise/agradient", w, h)
+				if lossless {
+					name = fmt.Sprintf("roundtrip lossless %dx%d noise/agradient", w, h)
+				}
+				add(name, func() []byte {
+					var o *webp.EncoderOptions
+					if lossless {
+						o = &webp.EncoderOptions{Lossless: true, Quality: 75, Method: 4}
+					}
+					data, err, p := encode(imgs.Make(w, h, "noise", "agradient", seed), o)
+					if err != nil || p != "" {
+						return []byte(fmt.Sprint("encode: ", err, first(p)))
+					}
+					return append(data, decPix(data)()...)
+				})
+			}
+		}
+	}
 	// large lossy + alpha decode: exercises the up-sampling / YUV->RGB kernels
 	bigA := mustEncode(imgs.Make(130, 67, "noise", "agradient", seed), nil)
 	add("decode lossy+alpha 130x67", decPix(bigA))
